@@ -49,7 +49,7 @@ def grid(tier):
         s = fa + sign + alt + zero + width + prec
         out.append(s)
     if tier == "quick":
-        out = [s for i, s in enumerate(out) if i % 4 == 0 or s in ("", ">8", "+.3", "#", "08", "*<8")]
+        out = [s for i, s in enumerate(out) if i % 9 == 0 or s in ("", ">8", "+.3", "#", "08", "*<8", "^8.3", "+#08")]
     return sorted(set(out))
 
 
@@ -96,6 +96,16 @@ def decl(c):
     named = c["named"]
     n = c["nfields"]
     attr = f"#[{ATTR[D]}({vlib.rust_str(literal(c))}{args_text(c)})]\n" if c["hasAttr"] else ""
+    if c.get("as_variant"):
+        # the same attribute on an enum variant (display.rs / debug.rs take a different route for enums)
+        if named:
+            body = "{ " + ", ".join(f"{nm}: P" for nm in ["a", "b"][:n]) + " }"
+            init = "S::V { " + ", ".join(f"{nm}: P({i + 1})" for i, nm in enumerate(["a", "b"][:n])) + " }"
+        else:
+            body = "(" + ", ".join("P" for _ in range(n)) + ")"
+            init = "S::V(" + ", ".join(f"P({i + 1})" for i in range(n)) + ")"
+        other = f'#[{ATTR[D]}("other")] W' if D != "Display" else "W"
+        return f"#[derive(derive_more::{D})]\npub enum S {{ {attr}V{body}, {other} }}", init
     if named:
         body = "{ " + ", ".join(f"pub {nm}: P" for nm in ["a", "b"][:n]) + " }"
         init = "S { " + ", ".join(f"{nm}: P({i + 1})" for i, nm in enumerate(["a", "b"][:n])) + " }"
@@ -148,6 +158,10 @@ def run(chk, tier, seed, replay):
                 raise vlib.ToolError(f"two model cases render to {k} with different expectations")
             continue
         cases[k] = (c, rec["doc"], rec["impl"])
+        # the same case as an enum variant (a seeded half in the quick tier)
+        if tier == "thorough" or vlib.seeded_pick(k, seed, 3) == 0:
+            cv = dict(c, as_variant=True)
+            cases["variant|" + k] = (cv, rec["doc"], rec["impl"])
     if replay:
         want = json.load(open(replay))["key"]
         cases = {k: v for k, v in cases.items() if k == want}
